@@ -15,6 +15,8 @@ pub mod surgery;
 pub mod lincode;
 #[cfg(feature = "full")]
 pub mod hiding;
+#[cfg(feature = "full")]
+pub mod refcheck;
 
 use scenario::Scenario;
 use seams::mix64;
